@@ -40,3 +40,38 @@ def make_points(h, n, xs=None, ynn=False, prefix=''):
         for y in Y:
             h.assume(y >= 0, 'y >= 0')
     return X, Y
+
+
+# ---- pool of base curves for the inline slices (exact rationals; x strictly increasing, y >= 0)
+def _f(s):
+    return [[Fr(a), Fr(b)] for a, b in s]
+
+
+POOL = [
+    _f([[1, 5], [2, 5], [3, 6], [4, 6], [5, 6]]),                                   # repo test curve
+    _f([[0, 3], [1, 3], [2, 3], [3, 2], [4, 1], [5, 0]]),                           # repo test curve (ends at 0)
+    _f([[1, 4], [2, 3], [3, 2], [4, 1], [5, 0]]),                                   # collinear run ending at y = 0
+    _f([[1, 1], [2, '1/2'], [3, '1/3'], [4, '1/4'], [5, '1/5'], [6, '1/6']]),       # 1/x
+    _f([[0, 8], [1, 4], [2, 0], [4, 0], [7, 0]]),                                   # elbow onto a zero plateau, uneven spacing
+    _f([[0, 1], [1, 1], [2, 1], [3, 0], [4, 0]]),                                   # step
+    _f([[0, 0], [1, 9], [3, 27], [4, 36]]),                                         # sloped collinear integers
+    _f([[0, 0], [1, 0], [2, 0], [3, 0]]),                                           # all zero
+    _f([[0, 6], [1, 5], [3, 5], [4, 2], [6, 2], [7, 0]]),                           # two plateaus
+    _f([[0, 3000000], [1, 1000000], [2, 500000], [3, 250000], [4, 125000]]),        # huge magnitudes
+    _f([[0, '3/1000000'], [1, '1/1000000'], [2, '1/2000000'], [3, '1/4000000'], [4, '1/8000000']]),   # tiny magnitudes
+    _f([[2, 0], [3, 1], [4, 2], [5, 2], [6, 2], [7, 3]]),                           # rising with plateau
+    _f([[0, 1], [1, 0]]),                                                           # two points
+    _f([[0, 2], [1, 1], [2, 0]]),                                                   # three collinear points ending at 0
+]
+TINY = [12, 13]     # indices of the 2- and 3-point curves
+
+
+def slice_points(h, curve, positions, nn=True):
+    """the pool curve with the heights at `positions` replaced by solver variables (>= 0)"""
+    X = [p[0] for p in curve]
+    Y = [p[1] for p in curve]
+    for i in positions:
+        Y[i] = h.real('y%d' % i, nn=nn)
+        if nn and not h.sym:
+            h.assume(Y[i] >= 0, 'y >= 0')
+    return X, Y
